@@ -377,7 +377,15 @@ class PointCloud(Shape):
         vector : ``(n_points,)`` `ndarray`
             The vector from which to create the points' array.
         """
-        self.points = vector.reshape([-1, self.n_dims])
+        points = vector.reshape([-1, self.n_dims])
+        if points.shape[0] != self.n_points:
+            # connectivity, labels, colours etc. are drawn from self, so the
+            # number of points cannot change
+            raise ValueError(
+                "Expected a vector of {} parameters ({} points) - got {} "
+                "instead.".format(self.n_parameters, self.n_points, vector.size)
+            )
+        self.points = points
 
     def __str__(self):
         return "{}: n_points: {}, n_dims: {}".format(
